@@ -4,6 +4,8 @@ use serde_json::Value;
 use crate::framework::{Ctx, Report, Tier};
 
 pub mod c01;
+pub mod c12;
+pub mod c13;
 pub mod jobs;
 
 pub struct CheckDef {
@@ -21,6 +23,8 @@ pub struct CheckDef {
 pub fn all() -> Vec<CheckDef> {
     let mut v = vec![c01::def()];
     v.extend(jobs::defs());
+    v.push(c12::def());
+    v.push(c13::def());
     v
 }
 
